@@ -87,6 +87,10 @@ struct SchedConfig
     double p_stall = 0.0;
     double p_spurious = 0.0;
     double p_startdelay = 0.0;
+    // probability that a thread which has evaluated its wait predicate and
+    // called cond_wait is held (virtual time) before it is enqueued as a
+    // waiter: the classic lost-wake-up window, made wide
+    double p_prewait = 0.0;
     // fine flavour: probability that a cross-thread memory access preempts
     double p_access = 0.0;
     uint64_t max_stall_ns = 50000000ull;
@@ -122,6 +126,7 @@ void join(int tid);
 bool finished(int tid);
 bool blocked(int tid); // true if not runnable (mutex/cond/join/sleep) or done
 bool blocked_not_sleeping(int tid); // blocked on mutex/cond/join
+int cond_waiters(); // threads inside cond_wait (enqueued or about to be)
 const char* block_reason(int tid);
 // Spuriously wakes thread `tid` if it sleeps on a condition variable (POSIX
 // allows that at any time).  A harness uses it to tell "sleeping because the
